@@ -221,6 +221,9 @@ def run(ctx):
         # ---- i the chunk-end decision reads nothing that describes this call (sizes of the write calls)
         from ..rules import segtaint
         segtaint.check_segmentation_taint(ck, prog, config, 'C16-i', ('zck_end_chunk', ec.name))
+        # ---- j the zck tool configures chunking from its command line alone
+        from ..rules import extra as _x16
+        _x16.check_tool_config_from_args(ck, prog, config, 'C16-j')
         # ---- e ordering fact at comp_init exits
         auto_bounds(ck, prog, config, 'C16-e')
         # ---- h effective maximum never above the configured one
